@@ -218,3 +218,68 @@ Proof.
   - split; [reflexivity|]. split; [exact Hp|]. cbn [c_owner]. exists (ctx_with_vars (x_vars cx ++ [(tval id, s_next s)]) cx). cbn [s_ctxs set_ctxs]. split; [apply nm_get_put_same|exact Hk].
   - exists (ctx_with_vars (x_vars cx ++ [(tval id, s_next s)]) cx). cbn [s_ctxs set_ctxs]. split; [apply nm_get_put_same|]. cbn. apply in_or_app. right. left. reflexivity.
 Qed.
+
+(* ---- one whole entry of a session (lex + parse + run as the main block): whatever it is and however it ends, what was
+   established before it is still there ---- *)
+Lemma heap_same_emit_warnings ws s : heap_same s (emit_warnings ws s).
+Proof.
+  unfold emit_warnings. generalize (rev ws). intros l. revert s. induction l as [|w r IH]; intros s; cbn [fold_left]; [apply heap_same_refl|].
+  eapply heap_same_trans; [|apply IH]. repeat split.
+Qed.
+Lemma IK_heap_same s s' s'' : Inv s' /\ K s s' -> heap_same s' s'' -> Inv s'' /\ K s s''.
+Proof. intros [A B] H. split; [eapply Inv_heap_same; eauto|eapply K_trans; [exact B|apply K_heap_same; exact H]]. Qed.
+
+Theorem run_main_keeps ped lim fuel repl b root s : Inv s ->
+  Inv (snd (run_main ped lim fuel repl b root s)) /\ K s (snd (run_main ped lim fuel repl b root s)).
+Proof.
+  intros HI. unfold run_main. pose proof (run_block_keeps_constants ped repl lim fuel b root s HI) as H.
+  destruct (run_block ped repl lim fuel b root s) as [[u|f] s'] eqn:E; cbn [snd] in H |- *; [exact H|].
+  assert (RT : forall t, Inv (snd (@rt_error unit t root s')) /\ K s (snd (@rt_error unit t root s'))).
+  { intros t. pose proof (@ro_runtime_error_cls unit EOther t root s') as R. unfold rt_error. rewrite R. exact H. }
+  destruct f; cbn [snd]; try exact H.
+  - specialize (RT t). destruct (@rt_error unit t root s') as [[x|[]] s'']; cbn [snd] in *; exact RT.
+  - specialize (RT t). destruct (@rt_error unit t root s') as [[x|[]] s'']; cbn [snd] in *; exact RT.
+Qed.
+
+Theorem run_source_keeps ped lim fuel repl src root s : Inv s ->
+  Inv (snd (run_source ped lim fuel repl src root s)) /\ K s (snd (run_source ped lim fuel repl src root s)).
+Proof.
+  intros HI. unfold run_source. destruct (lex ped src) as [toks|e]; cbn [snd].
+  2:{ eapply IK_heap_same; [split; [exact HI|apply K_refl]|repeat split]. }
+  destruct (parse_program ped toks) as [b ps|k t ps|]; cbn [snd].
+  - assert (H1 : Inv (emit_warnings (p_warns ps) s) /\ K s (emit_warnings (p_warns ps) s)).
+    { eapply IK_heap_same; [split; [exact HI|apply K_refl]|apply heap_same_emit_warnings]. }
+    destruct H1 as [I1 K1]. pose proof (run_main_keeps ped lim fuel repl b root _ I1) as [I2 K2].
+    destruct (run_main ped lim fuel repl b root (emit_warnings (p_warns ps) s)) as [[|d|st0] s2]; cbn [snd] in *;
+      try (split; [exact I2|eapply K_trans; eauto]).
+    eapply IK_heap_same; [split; [exact I2|eapply K_trans; eauto]|repeat split].
+  - eapply IK_heap_same; [eapply IK_heap_same; [split; [exact HI|apply K_refl]|apply heap_same_emit_warnings]|repeat split].
+  - split; [exact HI|apply K_refl].
+Qed.
+
+(* what "K" says, spelled out: after any entry -- successful, rejected by the lexer or the parser, or failing at run time half-way
+   through -- every variable that existed still exists with its name, type, CONSTANT flag and owner; every protected constant has
+   its value; every array that existed is the same array (bounds, element type, element cells) *)
+Corollary entry_keeps_variables_constants_arrays ped lim fuel repl src root s : Inv s ->
+  let s' := snd (run_source ped lim fuel repl src root s) in
+  (forall id cl, nm_get id (s_cells s) = Some cl -> exists cl', nm_get id (s_cells s') = Some cl' /\ same_meta cl cl') /\
+  (forall id cl, nm_get id (s_cells s) = Some cl -> protected_cell s cl -> nm_get id (s_cells s') = Some cl) /\
+  (forall id a, nm_get id (s_arrs s) = Some a -> nm_get id (s_arrs s') = Some a).
+Proof.
+  intros HI s'. destruct (run_source_keeps ped lim fuel repl src root s HI) as [_ HK]. fold s' in HK.
+  split; [exact (k_meta _ _ HK)|]. split; [exact (k_prot _ _ HK)|exact (k_arr _ _ HK)].
+Qed.
+
+(* ---- arrays and records, from the invariant ---- *)
+Corollary array_elements_are_variables_of_the_element_type ped repl lim fuel bl c s a ar e : Inv s ->
+  nm_get a (s_arrs (snd (run_block ped repl lim fuel bl c s))) = Some ar -> In e (a_elems ar) ->
+  exists cl, nm_get e (s_cells (snd (run_block ped repl lim fuel bl c s))) = Some cl /\ c_const cl = false /\ c_type cl = a_type ar.
+Proof. intros HI E Hin. destruct (run_block_keeps_constants ped repl lim fuel bl c s HI) as [HI' _]. exact (i_elems _ HI' a ar e E Hin). Qed.
+Corollary record_values_own_a_record_context ped repl lim fuel bl c s id cl tn rc : Inv s ->
+  nm_get id (s_cells (snd (run_block ped repl lim fuel bl c s))) = Some cl -> c_val cl = PRec tn rc ->
+  rec_ctx (snd (run_block ped repl lim fuel bl c s)) rc /\ dk (c_type cl) = KRec /\ dname (c_type cl) = Some tn.
+Proof.
+  intros HI E Ev. destruct (run_block_keeps_constants ped repl lim fuel bl c s HI) as [HI' _]. split; [eapply (i_recval _ HI'); eauto|]. split.
+  - rewrite <- (i_kind _ HI' id cl E). rewrite Ev. reflexivity.
+  - apply (i_name _ HI' id cl E). rewrite Ev. reflexivity.
+Qed.
